@@ -275,18 +275,13 @@ func storedControls(pd *PropDef) (seeds, neutral []Mutant) {
 // documentedNeutral: behaviour-preserving refactorings on which a rule still reports (DESIGN.md §6a):
 // limits of the approach, kept in the corpus and in the evidence.
 var documentedNeutral = map[string]string{
-	"C03-n4": "a frozen decision's literal list (slices.Contains over four names) became a lookup table",
 	"C03-n5": "a known predicate helper named in a frozen row was inlined by hand",
 	"C12-n6": "a block was extracted into a helper of another package (the normalisation is per package)",
-	"C13-n4": "three per-section blocks became one table-driven loop: the per-update flag is loop-carried",
 	"C13-n6": "a pre-sized slice filled by a counter over a map range (needs: a map range runs len(m) times)",
-	"C15-n5": "a literal built in a different order behind a type assertion renders differently in a frozen row",
 	"C03-n8": "`_, seen := m[k]` became `m[k]` on a map[string]bool that only stores true: equal by a data invariant, not by shape",
 	"C05-n8": "the cache lookup was hoisted out of the else-if chain and three skip tests were merged: the per-edge rules of the backward scan no longer find their edges",
 	"C07-n8": "index arithmetic moved into new helpers with index parameters: the bounds prover cannot relate the returned index to the slice",
 	"C07-n9": "`rest := a[len(b):]; rest[0]`: needs len(rest) = len(a) - len(b), which is not a difference constraint",
-	"C12-n9": "three per-section blocks became one table-driven loop (as C13-n4)",
-	"C15-n8": "an out-parameter accumulator became a returned accumulator: the rule follows the out-parameter",
 	"C16-n7": "the completion tail moved into a helper with `defer mu.Unlock()`: helpers with defer are not inlined, the atomic-section rule is per function",
 	"C18-n7": "the per-range evaluation became a helper returning boolean expressions: the verdict rules look for the if/else-if shape of the decision",
 	"C18-n9": "Clone+SortFunc became slices.SortedFunc(slices.Values(…)): a library idiom the sort/search anchors do not know",
